@@ -119,6 +119,35 @@ theorem foldl_range_inv' {σ : Type} (P : σ → Prop) (f : σ → Nat → σ) (
     P ((List.range n).foldl f init) :=
   foldl_range_inv (fun _ s => P s) f init n h0 hstep
 
+/-! ### projection forms of the definitions that destructure their state
+  (the model matches on the state first so that the compiled code updates the arrays in place) -/
+
+theorem cocCorner_eq (ctv : Array Nat) (st : HEState) (c : Nat) :
+    cocCorner ctv st c =
+      match takeMatch ctv (vget ctv (nextC c)) (vget ctv c) (st.buckets.getD (vget ctv (prevC c)) []) with
+      | some (e, rest) =>
+        { buckets := st.buckets.setIfInBounds (vget ctv (prevC c)) rest
+          opp := (st.opp.setIfInBounds c (some e)).setIfInBounds e (some c) }
+      | none =>
+        { buckets := st.buckets.modify (vget ctv (nextC c)) (· ++ [(vget ctv (prevC c), c)])
+          opp := st.opp } := by
+  cases st; rfl
+
+theorem markL_eq (v : Nat) (nm : Bool) (st : VCState) (act : Nat) :
+    markL v nm st act =
+      { st with
+        visitedC := st.visitedC.setIfInBounds act true
+        vc := st.vc.setIfInBounds v (some act)
+        ctv := if nm then st.ctv.setIfInBounds act v else st.ctv } := by
+  cases st; rfl
+
+theorem markR_eq (v : Nat) (nm : Bool) (st : VCState) (act : Nat) :
+    markR v nm st act =
+      { st with
+        visitedC := st.visitedC.setIfInBounds act true
+        ctv := if nm then st.ctv.setIfInBounds act v else st.ctv } := by
+  cases st; rfl
+
 namespace CornerTable
 
 /-- input vertex id of corner `c` obtained through the table: `VertexParent(Vertex(c))` -/
